@@ -113,7 +113,7 @@ class Surface(SplineObject):
         """
 
         squeeze = all(is_singleton(t) for t in [u,v])
-        derivs = ensure_listlike(d, self.pardim)
+        derivs = tuple(ensure_listlike(d, self.pardim))
         if not self.rational or np.sum(derivs) < 2 or np.sum(derivs) > 3:
             return super(Surface, self).derivative(u,v, d=derivs, above=above, tensor=tensor)
 
